@@ -6,22 +6,22 @@
 -/
 import Props.C15
 import Props.Family
-import Gen.SchemaFacts
+import Gen.Guards.Det
+import Gen.Guards.FillOk
+import Gen.Guards.LeafEmpty
 namespace PM.Family.C15
 open PM
 open PM.C15
-open PM.Gen PM.Family
+open PM.Gen PM.Family PM.FromDom
 
-theorem leafEmpty_of_facts {S : Schema} (h : Facts S) : LeafEmpty S := by
+theorem leafEmpty_of_B {S : Schema} (h : leafEmptyB S = true) : LeafEmpty S := by
   intro nt hnt hl
-  have := h.leafEmpty
-  simp only [leafEmptyB, List.all_eq_true, Bool.or_eq_true, Bool.not_eq_eq_eq_not, Bool.not_true] at this
-  rcases this nt hnt with h1 | h1
+  simp only [leafEmptyB, List.all_eq_true, Bool.or_eq_true, Bool.not_eq_eq_eq_not, Bool.not_true] at h
+  rcases h nt hnt with h1 | h1
   · rw [h1] at hl; cases hl
   · exact h1
 
-theorem liveSchema_of_facts {S : Schema} (h : Facts S) : LiveSchema S := by
-  have hok := h.SchemaOk
+theorem liveSchema_of_ok {S : Schema} (hok : FromDom.SchemaOk S) : LiveSchema S := by
   intro nt hnt
   obtain ⟨t, ht, rfl⟩ := List.getElem_of_mem hnt
   have ht' : t < S.nodes.size := by simpa using ht
@@ -31,8 +31,7 @@ theorem liveSchema_of_facts {S : Schema} (h : Facts S) : LiveSchema S := by
   have := hok.fill t q hq
   intro hn; rw [hn] at this; cases this
 
-theorem wrapWF_of_facts {S : Schema} (h : Facts S) (t q : Nat) : WrapWF S (S.dfa t) q := by
-  have hok := h.SchemaOk
+theorem wrapWF_of_ok {S : Schema} (hok : FromDom.SchemaOk S) (t q : Nat) : WrapWF S (S.dfa t) q := by
   refine ⟨fun e he => (hok.edge t q e he).2, fun nt hnt e he => ?_⟩
   obtain ⟨w, hw, rfl⟩ := List.getElem_of_mem hnt
   have hw' : w < S.nodes.size := by simpa using hw
@@ -44,41 +43,43 @@ theorem wrapWF_of_facts {S : Schema} (h : Facts S) (t q : Nat) : WrapWF S (S.dfa
 theorem findWrapping_complete (S : Schema) (hS : S ∈ familySchemas) (t : TypeId) (q : Nat) (target : TypeId)
     (chain : List TypeId) (hc : isWrapChain S (S.dfa t) q target chain = true) :
     findWrapping S (S.dfa t) q target ≠ none :=
-  PM.C15.findWrapping_complete S (S.dfa t) q (wrapWF_of_facts (family_facts _ hS) t q) target chain hc
+  PM.C15.findWrapping_complete S (S.dfa t) q
+    (wrapWF_of_ok (schemaOk_of_K _ (family_det _ hS) (family_fillOk _ hS)) t q) target chain hc
 
 /-- `PM.C15.findWrapping_shortest_complete` with its schema guards discharged for the bundled schema family -/
 theorem findWrapping_shortest_complete (S : Schema) (hS : S ∈ familySchemas) (t : TypeId) (q : Nat)
     (target : TypeId) (chain : List TypeId) (hc : isWrapChain S (S.dfa t) q target chain = true) :
     ∃ c, findWrapping S (S.dfa t) q target = some c ∧ isWrapChain S (S.dfa t) q target c = true ∧ c.length ≤ chain.length :=
-  PM.C15.findWrapping_shortest_complete S (fun w => (family_facts _ hS).Det w 0) (S.dfa t) q
-    (wrapWF_of_facts (family_facts _ hS) t q) target chain hc
+  PM.C15.findWrapping_shortest_complete S (fun w => det_of_detB _ (family_det _ hS) w 0) (S.dfa t) q
+    (wrapWF_of_ok (schemaOk_of_K _ (family_det _ hS) (family_fillOk _ hS)) t q) target chain hc
 
 /-- `PM.C15.findWrappingTypes_eq` with its schema guards discharged for the bundled schema family -/
 theorem findWrappingTypes_eq (S : Schema) (hS : S ∈ familySchemas) (t : TypeId) (q : Nat) (target : TypeId) :
     findWrappingTypes S (S.dfa t) q target = findWrapping S (S.dfa t) q target :=
-  PM.C15.findWrappingTypes_eq S (S.dfa t) q (wrapWF_of_facts (family_facts _ hS) t q) target
+  PM.C15.findWrappingTypes_eq S (S.dfa t) q
+    (wrapWF_of_ok (schemaOk_of_K _ (family_det _ hS) (family_fillOk _ hS)) t q) target
 
 /-- `PM.C15.findWrappingTypes_shortest_complete` with its schema guards discharged for the bundled schema family -/
 theorem findWrappingTypes_shortest_complete (S : Schema) (hS : S ∈ familySchemas) (t : TypeId) (q : Nat)
     (target : TypeId) (chain : List TypeId) (hc : isWrapChain S (S.dfa t) q target chain = true) :
     ∃ c, findWrappingTypes S (S.dfa t) q target = some c ∧ isWrapChain S (S.dfa t) q target c = true ∧
     c.length ≤ chain.length :=
-  PM.C15.findWrappingTypes_shortest_complete S (fun w => (family_facts _ hS).Det w 0) (S.dfa t) q
-    (wrapWF_of_facts (family_facts _ hS) t q) target chain hc
+  PM.C15.findWrappingTypes_shortest_complete S (fun w => det_of_detB _ (family_det _ hS) w 0) (S.dfa t) q
+    (wrapWF_of_ok (schemaOk_of_K _ (family_det _ hS) (family_fillOk _ hS)) t q) target chain hc
 
 /-- `PM.C15.findWrappingTypes_sound_shortest` with its schema guards discharged for the bundled schema family -/
 theorem findWrappingTypes_sound_shortest (S : Schema) (hS : S ∈ familySchemas) (t : TypeId) (q : Nat)
     (target : TypeId) (c : List TypeId) (h : findWrappingTypes S (S.dfa t) q target = some c) :
     isWrapChain S (S.dfa t) q target c = true ∧
     ∀ chain, isWrapChain S (S.dfa t) q target chain = true → c.length ≤ chain.length :=
-  PM.C15.findWrappingTypes_sound_shortest S (fun w => (family_facts _ hS).Det w 0) (S.dfa t) q
-    (wrapWF_of_facts (family_facts _ hS) t q) target c h
+  PM.C15.findWrappingTypes_sound_shortest S (fun w => det_of_detB _ (family_det _ hS) w 0) (S.dfa t) q
+    (wrapWF_of_ok (schemaOk_of_K _ (family_det _ hS) (family_fillOk _ hS)) t q) target c h
 
 /-- `PM.C15.findWrapping_sound` with its schema guards discharged for the bundled schema family -/
 theorem findWrapping_sound (S : Schema) (hS : S ∈ familySchemas) (d : Dfa) (q : Nat) (target : TypeId)
     (chain : List TypeId) (h : findWrapping S d q target = some chain) :
     isWrapChain S d q target chain = true :=
-  PM.C15.findWrapping_sound S (fun w => (family_facts _ hS).Det w 0) d q target chain h
+  PM.C15.findWrapping_sound S (fun w => det_of_detB _ (family_det _ hS) w 0) d q target chain h
 
 /-- `PM.C15.createAndFill_valid` with its schema guards discharged for the bundled schema family -/
 theorem createAndFill_valid (S : Schema) (hS : S ∈ familySchemas) (fuel : Nat) (t : TypeId) (attrs : Attrs)
@@ -89,7 +90,8 @@ theorem createAndFill_valid (S : Schema) (hS : S ∈ familySchemas) (fuel : Nat)
     computeAttrs (S.nodeType t).attrs attrs = .ok n.attrs ∧
     ∃ before after, n.kids = before ++ content ++ after ∧
     ∀ x, x ∈ before ++ after → x.isText = false ∧ x.marks = [] :=
-  PM.C15.createAndFill_valid S (family_facts _ hS).Det fuel t attrs content marks n h hmarks hcontent hsz
+  PM.C15.createAndFill_valid S (det_of_detB _ (family_det _ hS)) fuel t attrs content marks n h hmarks hcontent
+    hsz
 
 /-- `PM.C15.createAndFill_nothing_iff` with its schema guards discharged for the bundled schema family -/
 theorem createAndFill_nothing_iff (S : Schema) (hS : S ∈ familySchemas) (fuel : Nat) (t : TypeId)
@@ -98,50 +100,54 @@ theorem createAndFill_nothing_iff (S : Schema) (hS : S ∈ familySchemas) (fuel 
     S.createAndFill (fuel + 1) t attrs content marks = .nothing ↔
     (content.all (fun c => (S.nodeType t).allowsMarks c.marks) = false ∨
     ∀ fill, isFill (S.dfa t) S.generatable 0 (S.types content) false fill = false) :=
-  PM.C15.createAndFill_nothing_iff S (liveSchema_of_facts (family_facts _ hS)) fuel t ht attrs content marks a
-    hca hsz
+  PM.C15.createAndFill_nothing_iff S (liveSchema_of_ok (schemaOk_of_K _ (family_det _ hS) (family_fillOk _ hS)))
+    fuel t ht attrs content marks a hca hsz
 
 /-- `PM.C15.createAndFill_raises` with its schema guards discharged for the bundled schema family -/
 theorem createAndFill_raises (S : Schema) (hS : S ∈ familySchemas) (fuel : Nat) (t : TypeId) (attrs : Attrs)
     (content : List Node) (marks : Marks) (e : Err) (h : S.createAndFill fuel t attrs content marks = .raises e) :
     e = .valueError ∧ computeAttrs (S.nodeType t).attrs attrs = .error .valueError :=
-  PM.C15.createAndFill_raises S (liveSchema_of_facts (family_facts _ hS)) fuel t attrs content marks e h
+  PM.C15.createAndFill_raises S (liveSchema_of_ok (schemaOk_of_K _ (family_det _ hS) (family_fillOk _ hS))) fuel
+    t attrs content marks e h
 
 /-- `PM.C15.createAndFillO_iff` with its schema guards discharged for the bundled schema family -/
 theorem createAndFillO_iff (S : Schema) (hS : S ∈ familySchemas) (fuel : Nat) (t : TypeId)
     (ht : (S.nodeType t).isText = false) (n : Node) :
     PM.createAndFill S fuel t = some n ↔ S.createAndFill fuel t [] [] [] = .node n :=
-  PM.C15.createAndFillO_iff S (leafEmpty_of_facts (family_facts _ hS)) fuel t ht n
+  PM.C15.createAndFillO_iff S (leafEmpty_of_B (family_leafEmpty _ hS)) fuel t ht n
 
 /-- `PM.C15.createAndFill0_iff` with its schema guards discharged for the bundled schema family -/
 theorem createAndFill0_iff (S : Schema) (hS : S ∈ familySchemas) (fuel : Nat) (t : TypeId)
     (ht : (S.nodeType t).isText = false) (n : Node) :
     S.createAndFill0 fuel t = some n ↔ S.createAndFill fuel t [] [] [] = .node n :=
-  PM.C15.createAndFill0_iff S (leafEmpty_of_facts (family_facts _ hS)) fuel t ht n
+  PM.C15.createAndFill0_iff S (leafEmpty_of_B (family_leafEmpty _ hS)) fuel t ht n
 
 /-- `PM.C15.createAndFillDom_iff` with its schema guards discharged for the bundled schema family -/
 theorem createAndFillDom_iff (S : Schema) (hS : S ∈ familySchemas) (fuel : Nat) (t : TypeId)
     (ht : (S.nodeType t).isText = false) (n : Node) :
     FromDom.createAndFill S fuel t = .ok n ↔ S.createAndFill fuel t [] [] [] = .node n :=
-  PM.C15.createAndFillDom_iff S (leafEmpty_of_facts (family_facts _ hS)) fuel t ht n
+  PM.C15.createAndFillDom_iff S (leafEmpty_of_B (family_leafEmpty _ hS)) fuel t ht n
 
 /-- `PM.C15.createAndFillO_valid` with its schema guards discharged for the bundled schema family -/
 theorem createAndFillO_valid (S : Schema) (hS : S ∈ familySchemas) (fuel : Nat) (t : TypeId)
     (ht : (S.nodeType t).isText = false) (n : Node) (h : PM.createAndFill S fuel t = some n) :
     FilledValid S t n :=
-  PM.C15.createAndFillO_valid S (family_facts _ hS).Det (leafEmpty_of_facts (family_facts _ hS)) fuel t ht n h
+  PM.C15.createAndFillO_valid S (det_of_detB _ (family_det _ hS)) (leafEmpty_of_B (family_leafEmpty _ hS)) fuel
+    t ht n h
 
 /-- `PM.C15.createAndFill0_valid` with its schema guards discharged for the bundled schema family -/
 theorem createAndFill0_valid (S : Schema) (hS : S ∈ familySchemas) (fuel : Nat) (t : TypeId)
     (ht : (S.nodeType t).isText = false) (n : Node) (h : S.createAndFill0 fuel t = some n) :
     FilledValid S t n :=
-  PM.C15.createAndFill0_valid S (family_facts _ hS).Det (leafEmpty_of_facts (family_facts _ hS)) fuel t ht n h
+  PM.C15.createAndFill0_valid S (det_of_detB _ (family_det _ hS)) (leafEmpty_of_B (family_leafEmpty _ hS)) fuel
+    t ht n h
 
 /-- `PM.C15.createAndFillDom_valid` with its schema guards discharged for the bundled schema family -/
 theorem createAndFillDom_valid (S : Schema) (hS : S ∈ familySchemas) (fuel : Nat) (t : TypeId)
     (ht : (S.nodeType t).isText = false) (n : Node) (h : FromDom.createAndFill S fuel t = .ok n) :
     FilledValid S t n :=
-  PM.C15.createAndFillDom_valid S (family_facts _ hS).Det (leafEmpty_of_facts (family_facts _ hS)) fuel t ht n h
+  PM.C15.createAndFillDom_valid S (det_of_detB _ (family_det _ hS)) (leafEmpty_of_B (family_leafEmpty _ hS))
+    fuel t ht n h
 
 /-- `PM.C15.fillBeforeNodes_valid` with its schema guards discharged for the bundled schema family -/
 theorem fillBeforeNodes_valid (S : Schema) (hS : S ∈ familySchemas) (d : Dfa)
@@ -149,8 +155,8 @@ theorem fillBeforeNodes_valid (S : Schema) (hS : S ∈ familySchemas) (d : Dfa)
     (h : fillBeforeNodes S d q after toEnd = some (some ns)) :
     isFill d S.generatable q after toEnd (S.types ns) = true ∧
     ∀ n, n ∈ ns → FilledValid S (S.tyOf n) n :=
-  PM.C15.fillBeforeNodes_valid S (family_facts _ hS).Det (leafEmpty_of_facts (family_facts _ hS)) d hd q after
-    toEnd ns h
+  PM.C15.fillBeforeNodes_valid S (det_of_detB _ (family_det _ hS)) (leafEmpty_of_B (family_leafEmpty _ hS)) d hd
+    q after toEnd ns h
 
 /-- `PM.C15.fillNodesDom_valid` with its schema guards discharged for the bundled schema family -/
 theorem fillNodesDom_valid (S : Schema) (hS : S ∈ familySchemas) (d : Dfa)
@@ -158,7 +164,7 @@ theorem fillNodesDom_valid (S : Schema) (hS : S ∈ familySchemas) (d : Dfa)
     (h : FromDom.fillNodes S d q after toEnd = .ok (some ns)) :
     isFill d S.generatable q after toEnd (S.types ns) = true ∧
     ∀ n, n ∈ ns → FilledValid S (S.tyOf n) n :=
-  PM.C15.fillNodesDom_valid S (family_facts _ hS).Det (leafEmpty_of_facts (family_facts _ hS)) d hd q after
-    toEnd ns h
+  PM.C15.fillNodesDom_valid S (det_of_detB _ (family_det _ hS)) (leafEmpty_of_B (family_leafEmpty _ hS)) d hd q
+    after toEnd ns h
 
 end PM.Family.C15
